@@ -168,6 +168,7 @@ func c18Exec(r *vfRun) {
 	simA.quiesce()
 	tape := &vfTape{rec: append([]int(nil), simA.tape.out[mark:]...), replay: true}
 	simB := vfNewSim(tape, simA.maxSteps)
+	simB.pct = simA.pct
 	simB.traceOn = simA.traceOn
 	b := c18RunOne(r, simB, true)
 	// hand the second simulation's findings to the first (the one the runner reads)
